@@ -9,5 +9,6 @@ CONSTANTS
   FailKinds <- OneFail
   AnyOrder = TRUE
   Canon = FALSE
+  Elapse <- ElapseAll
 VIEW View
 INVARIANTS OrderImmaterial Bound
